@@ -364,6 +364,28 @@ def doDamage (f : List String) : String :=
       cls (Deep.parse I t (lmOf lm) text)
   | _ => "BADREQ"
 
+/-- `crash <table> <lm> <text>`: outcome classes of the parsers and of the follow-up calls -/
+def doCrash (f : List String) : String :=
+  match f with
+  | [tb, lm, tx] =>
+    let t := parseTable tb
+    let text := unhex tx
+    let I := symInterpT t
+    let fl := Flat.parse I t (lmOf lm) text
+    let r := "r=" ++ cls fl ++ cls (Flat.parseWoCompile I t (lmOf lm) text) ++ cls (Deep.parse I t (lmOf lm) text)
+    match fl with
+    | .ok f =>
+      let vs := symVars f.vars.length
+      let d2 := f.toDeep I t
+      let e3 := match d2 with
+        | .ok d =>
+          let g := FlatEx.fromDeep I t d
+          cls (d.eval I vs) ++ "o" ++ cls (g.eval I vs)
+        | .error _ => "---"
+      r ++ "\tfu=" ++ cls (f.eval I vs) ++ cls d2 ++ e3
+    | .error _ => r
+  | _ => "BADREQ"
+
 def handle (line : String) : String :=
   match splitOn line "\t" with
   | "lex" :: rest => doLex rest
@@ -371,6 +393,7 @@ def handle (line : String) : String :=
   | "forms" :: rest => doForms rest
   | "vars" :: rest => doVars rest
   | "damage" :: rest => doDamage rest
+  | "crash" :: rest => doCrash rest
   | "order" :: rest => doOrder rest
   | "track" :: rest => doTrack rest
   | _ => "BADKIND"
